@@ -126,6 +126,13 @@ def generate(rng, tier):
                 hist = '+history'
             yield Scn('e%d' % n, lines, {'class': '%s/%s%s' % (pl, 'eof' if eof else 'token', hist), 'expect': exp, 'noise': len(prefix),
                                          'err': e})
+    # the error function is replaced between two parses of one handle: the diagnostics of the second parse, also those
+    # raised inside sections that exist since the first parse or since cfg_init, go to the function installed NOW
+    for first in (b'sec { a = 1 }\n', b'', b't "x" { in { z = 1 } }\n', b'sec { in { z = 2 } }\n'):
+        for bad in (b'sec {\n a = \n}', b'sec {\n in { z = q }\n}', b't "x" {\n a = = 1\n}', b'i = x', b'sec { bogus = 1 }', b'"sec|bogus" = 1'):
+            n += 1
+            lines = gen.prelude(SCHEMA, 0) + ['parse_buf 0 ' + hx(first), 'errfunc 0 1', 'parse_buf 0 ' + hx(bad + b'\n')]
+            yield Scn('ef%d' % n, lines, {'class': 'errfunc-replaced', 'expect': 'alt', 'noise': 1, 'err': bad, 'impl_only': True})
     # accepted texts: no diagnostic at all
     for i in range(30 if tier == 'quick' else 400):
         text = b''.join(r.pick(NOISE)[0] for _ in range(1 + r.below(6))) + gen.rand_text(r, SCHEMA[:8], comments=True)
@@ -147,6 +154,14 @@ def oracle(scn, il):
     if not m:
         return [('no-result', scn.id + ': ' + res[:100])]
     rc, diags = m.group(1), [d for d in m.group(2).split(';') if d]
+    if exp == 'alt':
+        if rc != '1' or not diags:
+            return [('silent-error:' + key_of(scn), '%s: rc=%s diags=%s for %r' % (scn.id, rc, diags, scn.meta['err']))]
+        wrong = [d for d in diags if not d.split(',', 2)[2].startswith('ALT_')]
+        if wrong:
+            return [('wrong-error-function', '%s: after cfg_set_error_function() the diagnostic %s still went to the replaced function (%r)' % (
+                scn.id, wrong[0], scn.meta['err']))]
+        return []
     if exp is None:
         if rc == '0' and diags:
             return [('diagnostic-on-accept', '%s: accepted text delivered %s' % (scn.id, diags))]
